@@ -189,20 +189,36 @@ def R_smallvec(toks):
     return out, n
 
 def R_dyn(toks):
-    """`&X as &'static dyn super::Operation` -> `super::OpId::X`; return type `&'static dyn super::Operation` -> `super::OpId`."""
-    pat_cast = ["as", "&", "'static", "dyn", "super", ":", ":", "Operation"]
-    pat_ty = ["&", "'static", "dyn", "super", ":", ":", "Operation"]
+    """`&X as &'static dyn [super::]Operation` -> `[super::]OpId::X`; the type `&'static dyn [super::]Operation` -> `[super::]OpId`."""
     out = []; n = 0; i = 0
+    def ty_at(j):
+        """length and prefix of `&'static dyn [super::]Operation` at j, or None"""
+        a = ["&", "'static", "dyn", "super", ":", ":", "Operation"]
+        b = ["&", "'static", "dyn", "Operation"]
+        if [x.text for x in toks[j:j+len(a)]] == a: return len(a), ["super", ":", ":"]
+        if [x.text for x in toks[j:j+len(b)]] == b: return len(b), []
+        return None
     while i < len(toks):
         t = toks[i]
-        if t.text == "&" and i + 1 < len(toks) and toks[i+1].kind == "ident" and [x.text for x in toks[i+2:i+2+len(pat_cast)]] == pat_cast:
-            out.extend(_mk(["super", ":", ":", "OpId", ":", ":", toks[i+1].text], t))
-            for x in out[-6:]: x.pre = ""
-            i += 2 + len(pat_cast); n += 1; continue
-        if [x.text for x in toks[i:i+len(pat_ty)]] == pat_ty:
-            new = _mk(["super", ":", ":", "OpId"], t)
+        if t.text == "&" and i + 2 < len(toks) and toks[i+1].kind == "ident" and toks[i+2].text == "as":
+            r = ty_at(i + 3)
+            if r:
+                L, pre = r
+                new = _mk(pre + ["OpId", ":", ":", toks[i+1].text], t)
+                for x in new[1:]: x.pre = ""
+                out.extend(new); i += 3 + L; n += 1; continue
+        # coercion site `Prepare::S3(&X)`: `&X` in a position of type `&'static dyn Operation`
+        if t.text == "S3" and i + 4 < len(toks) and toks[i+1].text == "(" and toks[i+2].text == "&" and toks[i+3].kind == "ident" and toks[i+4].text == ")" and toks[i+3].text[0].isupper():
+            out.append(t); out.append(toks[i+1])
+            new = _mk(["OpId", ":", ":", toks[i+3].text], toks[i+2], "")
+            for x in new: x.pre = ""
+            out.extend(new); out.append(toks[i+4]); i += 5; n += 1; continue
+        r = ty_at(i)
+        if r:
+            L, pre = r
+            new = _mk(pre + ["OpId"], t)
             for x in new[1:]: x.pre = ""
-            out.extend(new); i += len(pat_ty); n += 1; continue
+            out.extend(new); i += L; n += 1; continue
         out.append(t); i += 1
     return out, n
 
@@ -354,3 +370,70 @@ def R_forcontinue(toks):
                     out = new; n += 1
         i += 1
     return out, n
+
+def R_labelblock(toks, label):
+    """`let PAT = 'l: { …; break 'l E; …; T };` becomes
+         let __lb_l; loop { …; { __lb_l = E; break; } …; __lb_l = T; break; } let PAT = __lb_l;
+    (every path through the block ends in `break` or leaves the function, so the loop body runs once; Verus does not support
+    labelled blocks)."""
+    label, _, ty = label.partition(":")
+    ty = ty.replace("|", ",")
+    lab = "'" + label
+    var = "__lb_" + label
+    out = list(toks)
+    k = None
+    for i in range(len(out) - 3):
+        if out[i].text == lab and out[i+1].text == ":" and out[i+2].text == "{":
+            k = i; break
+    if k is None: return toks, 0     # no such labelled block (any more): nothing to rewrite
+    # `let PAT =` before the label
+    eq = k - 1
+    if out[eq].text != "=": raise ScanError("R-labelblock: expected `let PAT = 'l: {`")
+    lt = eq - 1
+    while lt >= 0 and out[lt].text != "let": lt -= 1
+    pat = out[lt+1:eq]
+    bo = k + 2; bc = match_close(out, bo)
+    if out[bc+1].text != ";": raise ScanError("R-labelblock: expected `};` after the block")
+    body = out[bo+1:bc]
+    # tail expression: after the last top-level statement end
+    depth = 0; last_end = 0; j = 0
+    while j < len(body):
+        t = body[j]
+        if t.kind == "punct" and t.text in OPEN:
+            e = match_close(body, j)
+            if t.text == "{" :
+                nxt = body[e+1].text if e + 1 < len(body) else None
+                if nxt not in ("else", ".", "?", ";", ",", ")", None): last_end = e + 1
+            j = e + 1; continue
+        if t.text == ";": last_end = j + 1
+        j += 1
+    tail = body[last_end:]
+    if not tail: raise ScanError("R-labelblock: the block has no tail expression")
+    head = body[:last_end]
+    # break 'l E;  ->  { var = E; break; }
+    new_head = []; j = 0
+    while j < len(head):
+        t = head[j]
+        if t.text == "break" and j + 1 < len(head) and head[j+1].text == lab:
+            e = j + 2; d = 0
+            while e < len(head):
+                u = head[e]
+                if u.kind == "punct" and u.text in OPEN: e = match_close(head, e) + 1; continue
+                if u.text == ";": break
+                e += 1
+            expr = head[j+2:e]
+            new_head += _mk(["{", var, "="], t) + expr + _mk([";", "break", ";", "}"], t, " ")
+            j = e + 1; continue
+        new_head.append(t); j += 1
+    like = out[lt]
+    decl = _mk(["let", var], like)
+    if ty:
+        tyt, _ = tokenize(ty)
+        for x in tyt: x.pre = ""
+        decl += _mk([":"], like, "") + tyt
+    decl += _mk([";"], like, "")
+    res = out[:lt] + decl + _mk(["loop"], like, "\n    ") + _mk(["{"], like, " ") + new_head \
+        + _mk([var, "="], tail[0], "\n        ") + tail + _mk([";", "break", ";"], tail[-1], "") + _mk(["}"], like, "\n    ") \
+        + _mk(["let"], like, "\n    ") + pat + _mk(["=", var, ";"], like, " ") + out[bc+2:]
+    for x in pat[:1]: x.pre = " "
+    return res, 1
